@@ -203,6 +203,11 @@ gen_harness!(gen_kn_k_white_sound, gen_kn_k_white_complete, 16, true, &[(0, 2)],
 gen_harness!(gen_kn_k_black_sound, gen_kn_k_black_complete, 16, false, &[(1, 2)], false, false, [(|_p: &Pos, n: usize| n == 16), "sixteen candidates"]);
 // own knight, enemy knight (captures, attacked squares around the king)
 gen_harness!(gen_kn_kn_white_sound, gen_kn_kn_white_complete, 16, true, &[(0, 2), (1, 2)], false, false, [(|p: &Pos, _n: usize| geo_knight(p.bb[0][N].trailing_zeros() as u8) & p.bb[1][N] != 0), "knight can capture knight"]);
+// two own men of one kind (per-kind loops run twice; doubled pawns block each other)
+gen_harness!(gen_knn_k_white_sound, gen_knn_k_white_complete, 24, true, &[(0, 2), (0, 2)], false, false, [(|_p: &Pos, n: usize| n == 24), "two knights with eight moves each"]);
+gen_harness!(gen_kpp_k_black_sound, gen_kpp_k_black_complete, 16, false, &[(1, 1), (1, 1)], false, false,
+    [(|p: &Pos, _n: usize| (p.bb[1][P] >> 8) & p.bb[1][P] != 0), "doubled pawns: the rear pawn is blocked";
+     (|p: &Pos, _n: usize| p.bb[1][P] & RANK_2 != 0 && p.bb[1][P] & RANK_7 != 0), "one pawn about to promote, one on its home rank"]);
 // own rook / bishop / queen
 gen_harness!(gen_kr_k_white_sound, gen_kr_k_white_complete, 22, true, &[(0, 4)], false, false, [(|_p: &Pos, n: usize| n == 22), "rook with fourteen moves, king with eight"]);
 gen_harness!(gen_kr_k_black_sound, gen_kr_k_black_complete, 22, false, &[(1, 4)], false, false, [(|_p: &Pos, n: usize| n == 22), "rook with fourteen moves, king with eight"]);
